@@ -60,10 +60,13 @@ def gen_spec(rng, n_classes, order, unknown=False):
         modules["gm0"].append(["T0", [["x", "int"], ["lim", "Tuple[int, int] = (0, 1)"]]])
         classes.append(("gm0", "T0", sig_a + [["lim", "tuple"]]))
     names = []
+    # component names and ports written as plain YAML scalars that are not strings (`name: 7`, `component: 7`, `port: 2`):
+    # both ends of a connection must be normalised to the same strings
+    numeric = rng.random() < 0.3
 
     def entry(depth, prefix):
         m, c, f = rng.choice(classes)
-        nm = f"{prefix}{len(names)}"
+        nm = f"{prefix}{len(names)}" if not (numeric and depth == 0) else 100 + len(names)
         names.append(nm)
         e = {"type": f"{m}.{c}", "name": nm, "inputs": {}}
         for fn, ft in f:
@@ -90,21 +93,21 @@ def gen_spec(rng, n_classes, order, unknown=False):
     for i, e in enumerate(top):
         for j in range(i):
             if rng.random() < 0.4:
-                e["inputs"][f"i{j}"] = {"component": top[j]["name"], "port": rng.choice(["o", "y", "out"])}
+                e["inputs"][f"i{j}"] = {"component": top[j]["name"], "port": rng.choice(["o", "y", "out"] + ([2, 3] if numeric else []))}
     if unknown:
         top[rng.randrange(len(top))]["type"] = rng.choice(["gm0.Nope", "nomodule.K0", "gm0.K99"])
-    tops = [e["name"] for e in top]
+    tops = [str(e["name"]) for e in top]
     sels = [None, tops[:1], tops[::2], tops + ["ghost"], []]
     imp = [f"gm{i}" for i in order if f"gm{i}" in modules]
     return {"modules": modules, "import_first": imp, "entries": top, "selections": sels}, classes
 
 
 def expected_desc(e):
-    d = {"class": e["type"], "name": e["name"], "inputs": {k: [v["component"], v["port"]] for k, v in e["inputs"].items()},
+    d = {"class": e["type"], "name": str(e["name"]), "inputs": {k: [str(v["component"]), str(v["port"])] for k, v in e["inputs"].items()},
          "fields": {k: v for k, v in e.items() if k not in ("type", "name", "inputs", "components", "expose")}}
     if "components" in e:
         d["components"] = [expected_desc(x) for x in e["components"]]
-        d["expose"] = {k: [v["component"], v["port"]] for k, v in e["expose"].items()}
+        d["expose"] = {k: [str(v["component"]), str(v["port"])] for k, v in e["expose"].items()}
         d["fields"] = {}
     return d
 
@@ -126,9 +129,9 @@ def run(tier, seed, drv):
     reqs = []
     for (spec, classes, unknown), out in zip(specs, outs):
         reg = [{"tag": f"{m}.{c}", "fields": [f[0] for f in fs]} for m, c, fs in classes] + [{"tag": "tickit.core.components.system_component.SystemSimulation", "fields": []}]
-        tops = [e["name"] for e in spec["entries"]]
+        tops = [str(e["name"]) for e in spec["entries"]]
         reqs.append({"op": "config", "registry": reg, "tags": [e["type"] for e in spec["entries"]], "available": tops, "requested": None,
-                     "configs": [[e["name"], [[q, [s["component"], s["port"]]] for q, s in e["inputs"].items()]] for e in spec["entries"]]})
+                     "configs": [[str(e["name"]), [[q, [str(s["component"]), str(s["port"])]] for q, s in e["inputs"].items()]] for e in spec["entries"]]})
     reps = drv.eval(reqs)
     for (spec, classes, unknown), out, rq, rep in zip(specs, outs, reqs, reps):
         case = {"spec": spec}
@@ -159,8 +162,9 @@ def run(tier, seed, drv):
             res.violate(V("roundtrip-not-equal", "dump + load gave a different configuration", site="roundtrip"), case)
         if not out.get("roundtrip_full_equal"):
             res.violate(V("roundtrip-not-equal", "yaml.dump + load: " + str(out.get("roundtrip_full_error", "different configuration")), site="roundtrip", dumper="yaml.dump"), case)
-        tops = [e["name"] for e in spec["entries"]]
+        tops = [str(e["name"]) for e in spec["entries"]]
         declared = sorted(f"{s['component']}:{s['port']}>{e['name']}:{q}" for e in spec["entries"] for q, s in e["inputs"].items())
+        res.count("numeric-names" if any(not isinstance(e["name"], str) for e in spec["entries"]) else "string-names")
         for req, sel in zip(spec["selections"], out["selections"]):
             if req is not None and any(r not in tops for r in req):
                 if "error" not in sel:
